@@ -72,7 +72,14 @@ func supervise(id, tier string, seed int64) int {
 	}
 	start := time.Now()
 	cmd := exec.Command(os.Args[0], os.Args[1:]...)
-	cmd.Env = append(os.Environ(), "VERIF_CHILD=1", "VERIF_WORK="+work, "GOTRACEBACK=all")
+	raceLog := filepath.Join(outDir, fmt.Sprintf("race-%s-%d", tier, seed))
+	if old, _ := filepath.Glob(raceLog + "*"); len(old) > 0 {
+		for _, f := range old {
+			os.Remove(f)
+		}
+	}
+	cmd.Env = append(os.Environ(), "VERIF_CHILD=1", "VERIF_WORK="+work, "GOTRACEBACK=all",
+		"GORACE=halt_on_error=0 exitcode=0 history_size=5 log_path="+raceLog, "VERIF_RACE_LOG="+raceLog)
 	cmd.Stdout = os.Stdout
 	cmd.Stderr = ef
 	cmd.SysProcAttr = &syscall.SysProcAttr{Setpgid: true}
